@@ -5,6 +5,7 @@ mod c11;
 mod c12;
 mod c16;
 mod c17;
+mod c17x;
 mod inbound;
 mod inbound_oracles;
 mod c05;
@@ -126,6 +127,9 @@ fn main() {
                 Some("C03") => c03::run_c03(t),
                 Some("C04") => c03::run_c04(t),
                 Some("C11") => c11::run(t),
+                Some("C17") => c17::run(t),
+                Some("C16") => c16::run(t),
+                Some("C12") => c12::run(t),
                 Some("C05") => c05::run(t),
                 Some("C13") => c05::run_c13(t),
                 Some("C09") => c09::run(t),
